@@ -42,6 +42,24 @@ def rndPos (p : Nat) (a : Rat) : Rat :=
 def rnd (p : Nat) (x : Rat) : Rat :=
   if x = 0 then 0 else if 0 < x then rndPos p x else -(rndPos p (-x))
 
+/-! ### bounded exponent range (binary32: `p = 24, emin = -126, emax = 127`; binary64: `53, -1022, 1023`) -/
+
+/-- largest finite number: `(2^p - 1)·2^(emax - p + 1)` -/
+def maxFinite (p : Nat) (emax : Int) : Rat := ((2 ^ p - 1 : Nat) : Rat) * pow2 (emax - (p : Int) + 1)
+
+/-- IEEE-754 `roundTiesToEven` with a BOUNDED exponent range: below `2^emin` the result is rounded on the
+    fixed subnormal grid `2^(emin - p + 1)` (gradual underflow; zero included), otherwise it is `rnd p x`,
+    and `none` (an infinity) when that exceeds the largest finite number (overflow). -/
+def rndB (p : Nat) (emin emax : Int) (x : Rat) : Option Rat :=
+  let a := if x < 0 then -x else x
+  if a < pow2 emin then
+    let q := pow2 (emin - (p : Int) + 1)
+    let r : Rat := ((roundEven (a / q) : Int) : Rat) * q
+    some (if x < 0 then -r else r)
+  else
+    let r := rnd p x
+    if maxFinite p emax < (if r < 0 then -r else r) then none else some r
+
 /-! ### decoding IEEE bit patterns (driver only) -/
 
 def hexDigit (c : Char) : Option Nat :=
